@@ -634,6 +634,26 @@ def f3_result_fields(ctx, res: Result, ci: ClassInfo, entry: FuncInfo) -> None:
             f = _self_attr(n, cn)
             if f and f not in config_fields and ctx.ix.lookup(ci, n.attr) is None:
                 written.add(f)
+    # fields filled in place (memo tables) by the entry point or the self-methods it reaches count as result state too
+    seen_f, todo = set(), [entry]
+    while todo:
+        g = todo.pop()
+        if id(g.node) in seen_f:
+            continue
+        seen_f.add(id(g.node))
+        for n in walk_no_nested(g.node):
+            if isinstance(n, (ast.Assign, ast.AugAssign)):
+                t = n.targets[0] if isinstance(n, ast.Assign) else n.target
+                if isinstance(t, ast.Subscript):
+                    f = _self_attr(t.value, cn)
+                    if f and f not in config_fields:
+                        written.add(f)
+            if isinstance(n, ast.Call) and isinstance(n.func, ast.Attribute) and src(n.func.value) == "self" and n.func.attr in ci.methods:
+                todo.append(ci.methods[n.func.attr])
+            if isinstance(n, ast.Call) and isinstance(n.func, ast.Attribute) and n.func.attr in ("append", "update", "setdefault", "add", "extend"):
+                f = _self_attr(n.func.value, cn)
+                if f and f not in config_fields:
+                    written.add(f)
     result_fields = written - (init_fields & config_fields)
     if not result_fields:
         raise AnalysisError(f"{entry.qualname}: no per-call result fields found")
